@@ -30,6 +30,25 @@ type Outcome struct {
 	World      *World
 	Traces     [][]string
 	Recorded   []kern.Choice // the choices this evaluation consumed
+	// Digest covers everything the code under test produced in this evaluation (0 = not provided).
+	// It must not depend on the process's history: the driver compares it between a warm worker
+	// and a fresh process evaluating the same index.
+	Digest uint64
+}
+
+// DigestOf hashes diagnostics and other outputs.
+func DigestOf(parts ...any) uint64 {
+	h := uint64(1469598103934665603)
+	for _, p := range parts {
+		s := fmt.Sprintf("%v|", p)
+		for i := 0; i < len(s); i++ {
+			h = (h ^ uint64(s[i])) * 1099511628211
+		}
+	}
+	if h == 0 {
+		h = 1
+	}
+	return h
 }
 
 func (o *Outcome) addRun(k *kern.Result) {
